@@ -330,8 +330,15 @@ static int ex_region(char *loc, int *beg, int *end)
 		return 0;
 	}
 	if (!*loc) {
-		if (xrow < 0 || xrow > lbuf_len(xb))
+		if (xrow > lbuf_len(xb))
 			return 1;
+		if (xrow < 0) {		/* line 0; the same as address 0 */
+			*beg = 0;
+			*end = 0;
+			if (!lbuf_len(xb))
+				return 1;
+			return 0;
+		}
 		*beg = xrow;
 		*end = xrow == lbuf_len(xb) ? xrow : xrow + 1;
 		return 0;
